@@ -13,9 +13,13 @@ INEXACT_H = [0.1, 0.3 / 7, 1e-4, 1e4 / 3]
 def gammas(rng: random.Random, n: int, count: int):
     """Concretisations (voxel sizes per matrix axis, origin mode)."""
     out = [([1.0] * n, "default"), ([rng.choice(INEXACT_H) for _ in range(n)], "user"),
-           ([rng.choice(EXACT_H + INEXACT_H) for _ in range(n)], "far")]
+           ([rng.choice(EXACT_H + INEXACT_H) for _ in range(n)], "far"),
+           # integer-typed origins (Python ints / integer arrays) with fractional extents, and the default origin with
+           # fractional extents (in 1-D the default origin is the integer array [0])
+           ([rng.choice(INEXACT_H + [0.25]) for _ in range(n)], rng.choice(["int", "intarr"])),
+           ([rng.choice(INEXACT_H + [0.25]) for _ in range(n)], "default")]
     while len(out) < count:
-        out.append(([10 ** rng.uniform(-4, 4) for _ in range(n)], rng.choice(["default", "user", "far", "farneg"])))
+        out.append(([10 ** rng.uniform(-4, 4) for _ in range(n)], rng.choice(["default", "user", "far", "farneg", "int", "intarr"])))
     return out[:count]
 
 
@@ -39,6 +43,10 @@ def build_image(darsia, rng, shape, h, origin_mode, kind="scalar", table=None, d
             c, sgn = table[m]
             if sgn < 0:
                 o[c - 1] = dims[m]
+    elif origin_mode in ("int", "intarr"):
+        oi = [int(rng.randint(-9, 9)) for _ in range(n)]
+        o = [float(x) for x in oi]
+        kw["origin"] = list(oi) if origin_mode == "int" else np.array(oi, dtype=np.int64)
     else:
         scale = {"user": 3.0, "far": 1e6, "farneg": -1e6}[origin_mode]
         o = [0.0] * n
